@@ -15,6 +15,7 @@ in which a vector's non-zero values are presented; for the 'ordinal' rank
 method (ties broken by presentation order) the contract is "a permutation of
 1..k that respects <".
 """
+import os
 import numpy as np
 
 from pyvc import rt
@@ -159,6 +160,8 @@ def _core(case):
         elif op in ('norm', 'cli-norm'):
             if op == 'norm':
                 st, res = vu.call_f(lambda: t.norm(axis=axis, inplace=inplace))
+            elif case.get('via') == 'command':
+                st, res = vu.call_f(lambda: _run_command(t, ['-r', '-a', axis]))
             else:
                 from biom.cli.table_normalizer import _normalize_table
                 st, res = vu.call_f(lambda: _normalize_table(t, relative_abund=True, presence_absence=False, axis=axis))
@@ -184,6 +187,8 @@ def _core(case):
         elif op in ('pa', 'cli-pa'):
             if op == 'pa':
                 st, res = vu.call_f(lambda: t.pa(inplace=inplace))
+            elif case.get('via') == 'command':
+                st, res = vu.call_f(lambda: _run_command(t, ['-p', '-a', axis]))
             else:
                 from biom.cli.table_normalizer import _normalize_table
                 st, res = vu.call_f(lambda: _normalize_table(t, relative_abund=False, presence_absence=True, axis=axis))
@@ -233,7 +238,8 @@ def _core(case):
             raise ValueError(op)
         if op in ('norm', 'pa', 'rank', 'cli-norm', 'cli-pa'):
             name = {'rank': 'rankdata'}.get(op, op)
-            if (inplace or op.startswith('cli')) and rt.view(t).diff(out, fields=('obs', 'samp', 'A')):
+            if (inplace or op.startswith('cli')) and case.get('via') != 'command' \
+                    and rt.view(t).diff(out, fields=('obs', 'samp', 'A')):
                 fails.append(('%s/inplace-result-is-receiver' % name, out.A.tolist(), rt.view(t).A.tolist()))
             if rt.inv(res):
                 fails.append(('%s/post/Inv' % name, [], rt.inv(res)))
@@ -247,6 +253,27 @@ def run_case(case):
 
 
 run_case = vu.history_guard(run_case)
+def _run_command(t, opts):
+    """the real `biom normalize-table` command function on a file written from the state (files under a temp dir)"""
+    import shutil, tempfile
+    from biom import load_table
+    from biom.cli.table_normalizer import normalize_table
+    from biom.util import biom_open
+    d = tempfile.mkdtemp(prefix='pyvc_c13_')
+    try:
+        src, dst = os.path.join(d, 'in.biom'), os.path.join(d, 'out.biom')
+        with biom_open(src, 'w') as fh:
+            t.to_hdf5(fh, 'verif')
+        try:
+            normalize_table.main(['-i', src, '-o', dst] + list(opts), standalone_mode=False)
+        except SystemExit as e:
+            if e.code not in (0, None):
+                raise RuntimeError('normalize-table exited with %r' % (e.code,))
+        return load_table(dst)
+    finally:
+        shutil.rmtree(d, ignore_errors=True)
+
+
 SCOPES = {'transform': run_case, 'norm-pa-rank': run_case, 'elementwise-axes': run_case, 'normalize-table': run_case}
 
 
@@ -330,11 +357,15 @@ def axes_cases(tier):
 
 
 def cli_cases(tier):
+    n = 0
     for st, kind in _states(tier):
         for axis in AXES:
+            n += 1
+            # every 7th state goes through the command function itself (file in, file out), the others through its helper
+            via = 'command' if n % 7 == 0 and min(np.shape(st['A'])) > 0 else 'helper'
             if kind in ('count', 'nonneg'):
-                yield dict(st, op='cli-norm', axis=axis)
-            yield dict(st, op='cli-pa', axis=axis)
+                yield dict(st, op='cli-norm', axis=axis, via=via)
+            yield dict(st, op='cli-pa', axis=axis, via=via)
 
 
 def run(rep):
